@@ -419,6 +419,31 @@ func boundedBy(e, R string, p *Path) string {
 	if e == R {
 		return ""
 	}
+	for _, bn := range []string{"builtin:min(", "builtin:max("} {
+		if !strings.HasPrefix(e, bn) || !strings.HasSuffix(e, ")") {
+			continue
+		}
+		args := splitTop(e[len(bn) : len(e)-1])
+		if len(args) != 2 {
+			return "min/max of other than two values"
+		}
+		a, b := strings.TrimSpace(args[0]), strings.TrimSpace(args[1])
+		okA, okB := boundedBy(a, R, p) == "", boundedBy(b, R, p) == ""
+		nonneg := func(x string, ok bool) bool {
+			return ok || p.State.RelOf("int", x, "const:0")&LT == 0
+		}
+		if bn == "builtin:min(" {
+			// 0 <= min(a, b) needs both non-negative; min(a, b) <= R needs one of them within R
+			if nonneg(a, okA) && nonneg(b, okB) && (okA || okB) {
+				return ""
+			}
+			return "min of values not both known non-negative, or neither within the retention"
+		}
+		if okA && okB {
+			return ""
+		}
+		return "max of a value not within the retention"
+	}
 	if strings.HasPrefix(e, "(") && strings.HasSuffix(e, ")") {
 		in := e[1 : len(e)-1]
 		if a, op, b, ok := splitBin(in); ok {
